@@ -164,7 +164,7 @@ PLANS = {
     'C17': dict(
         module='RucteProps.C17',
         theorems=['Ructe.C17.announced', 'Ructe.C17.pinned_add_files_as_counterexample'],
-        runs=[dict(suite='script', mix='statics,tree', n=dict(quick=150, thorough=3000), projection='script+stdout', tags=['C17'])],
+        runs=[dict(suite='script', mix='statics,tree', n=dict(quick=150, thorough=1500), projection='script+stdout', tags=['C17'])],
         correspondence='the lines printed to stdout by a whole build-script run (public API, child process) vs Ructe.build, given the same input tree and read_dir order',
         rule='random build scripts over compile_templates / add_file / add_files / add_file_as / add_files_as (nested sub-directories) / add_file_data on random trees (tmpfs and ext4, relative and absolute paths); oracle: every directory listed and every file read or embedded is covered by a cargo:rerun-if-changed line for itself or an ancestor; non-trivial = distinct run outputs',
         assumptions=['cargo re-runs a build script when a listed path, or anything under a listed directory, changes (cargo\'s documented rule, modelled as the `covered` predicate)', 'add_sass_file reads through rsass\' CargoContext, which prints its own lines: opaque'],
@@ -177,7 +177,7 @@ PLANS = {
         extra_modules=['RucteProps.C10Tree', 'RucteProps.C18Order'],
         needs_tables=True,
         theorems=['Ructe.C10.others_silent', 'Ructe.C10.valid_template_declared', 'Ructe.C10.broken_template_reported', 'Ructe.C10.subdir_declared', 'Ructe.C10.handleEntries_append', 'Ructe.C10.suffix_table', 'Ructe.C10.tree_mirror_file', 'Ructe.C10.subdir_mod_declared', 'Ructe.C10.template_fn_declared', 'Ructe.C10.decl_only_with_file', 'Ructe.C18.broken_isolated'],
-        runs=[dict(suite='script', mix='tree', n=dict(quick=200, thorough=4000), projection='script+files+stdout', tags=['C10'])],
+        runs=[dict(suite='script', mix='tree', n=dict(quick=200, thorough=1500), projection='script+files+stdout', tags=['C10'])],
         correspondence='the whole OUT_DIR (paths and bytes) and stdout of compile_templates on a directory tree vs Ructe.build given the observed read_dir order',
         rule='random trees to depth 4 with identifier stems / directory names, mixed suffixes, same stem under different suffixes, non-template files, empty directories, broken templates among valid ones; oracle: exactly the expected files, each the code generated for that template alone, declaration chains present, broken templates warned and undeclared; non-trivial = distinct run outputs',
         assumptions=['file and directory names are UTF-8', 'that the declared functions are callable at every depth is rustc\'s name resolution (e2e)'],
@@ -188,7 +188,7 @@ PLANS = {
     'C12': dict(
         module='RucteProps.C12',
         theorems=['Ructe.C12.applyWrite_post', 'Ructe.C12.incremental_eq_clean', 'Ructe.C12.second_run_silent', 'Ructe.C12.untouched_elsewhere', 'Ructe.C12.runLog_get'],
-        runs=[dict(suite='script', mix='history', n=dict(quick=120, thorough=2500), projection='script+files+writes', tags=['C12'])],
+        runs=[dict(suite='script', mix='history', n=dict(quick=120, thorough=1200), projection='script+files+writes', tags=['C12'])],
         correspondence='OUT_DIR contents after a run and the set of physically rewritten files (mtime) vs Ructe.build / writeIfChanged on the observed prior OUT_DIR state',
         rule='edit histories (add / modify / delete / break templates, sub-directories, statics) of 1..4 edits with a run after each, output files replaced by garbage / non-UTF-8 / truncated at 0, mid, len-1 bytes; every run compared with a clean build into an empty directory; a directly repeated run must rewrite nothing; non-trivial = distinct run outputs',
         assumptions=['an output path is a file or absent', 'read_dir yields the same order for an unchanged directory'],
@@ -200,8 +200,8 @@ PLANS = {
         module='RucteProps.C18',
         extra_modules=['RucteProps.C18Order'],
         theorems=['Ructe.C18.template_code_pure', 'Ructe.C18.template_code_location_independent', 'Ructe.C18.build_deterministic', 'Ructe.C18.statics_line_pure', 'Ructe.C18.writes_perm', 'Ructe.C18.decls_concat', 'Ructe.C18.flat_decls_perm', 'Ructe.C18.handleEntries_parametric'],
-        runs=[dict(suite='script', mix='tree,statics', n=dict(quick=150, thorough=3000), projection='script+files', tags=['C18']),
-              dict(suite='script', mix='history', n=dict(quick=60, thorough=1500), projection='script+files', tags=['C18']),
+        runs=[dict(suite='script', mix='tree,statics', n=dict(quick=150, thorough=1500), projection='script+files', tags=['C18']),
+              dict(suite='script', mix='history', n=dict(quick=60, thorough=600), projection='script+files', tags=['C18']),
               dict(suite='parse', mix='examples,structured', n=dict(quick=1500, thorough=25000), projection='text', tags=['C18'])],
         correspondence='generated files byte for byte vs the model\'s single answer; the same tree in shuffled creation orders and other locations (tmpfs / ext4) must agree',
         rule='every tree scenario again with shuffled creation order (= read_dir order on tmpfs) at another location; the code for (name, template bytes) recorded across all scenarios; non-trivial = distinct run outputs + distinct accepted syntax trees',
@@ -213,7 +213,7 @@ PLANS = {
     'C07': dict(
         module='RucteProps.C07',
         theorems=['Ructe.C07.urlName_shape', 'Ructe.C07.base64_6_injective', 'Ructe.C07.slug_eq_iff', 'Ructe.C07.slug_shape', 'Ructe.C07.publishedName_pure', 'Ructe.C07.addHashed_publishes', 'Ructe.C07.nameAndExt_shape'],
-        runs=[dict(suite='script', mix='statics', n=dict(quick=200, thorough=4000), projection='script+names', tags=['C07'], statics_oracle=True)],
+        runs=[dict(suite='script', mix='statics', n=dict(quick=200, thorough=1500), projection='script+names', tags=['C07'], statics_oracle=True)],
         correspondence='get_names() (identifier -> URL name) after a script vs Ructe.namesAfter (Lean MD5 + base64)',
         rule='contents: empty, 1 byte, all 256 byte values, MD5 block edges 55/56/57/63/64/65/119/120/128, random; 58 file names (several dots, trailing dot, leading dot, dashes, every punctuation byte, non-ASCII); add_file / add_files / add_file_data in shuffled orders from different directories; oracle: python hashlib.md5 + base64 recomputation; non-trivial = items checked',
         assumptions=['changing a byte changes the name unless MD5 collides on its first 48 bits'],
@@ -224,7 +224,7 @@ PLANS = {
     'C08': dict(
         module='RucteProps.C08',
         theorems=['Ructe.C08.byteString_roundtrip', 'Ructe.C08.strDebug_roundtrip', 'Ructe.C08.name_raw_counterexample'],
-        runs=[dict(suite='script', mix='statics', n=dict(quick=200, thorough=4000), projection='script+files', tags=['C08'], statics_oracle=True),
+        runs=[dict(suite='script', mix='statics', n=dict(quick=200, thorough=1500), projection='script+files', tags=['C08'], statics_oracle=True),
               dict(suite='script', mix='statics', n=dict(quick=40, thorough=400), projection='script+names', tags=['C08'], args=['--keep'], statics_e2e=dict(quick=24, thorough=200))],
         correspondence='text of statics.rs vs Ructe.Statics.finish; every printed content / path / name literal decoded by the Lean model of rustc\'s lexer',
         rule='as C07, all five add_* entry points; oracle: decoded content literal = data, decoded include_bytes! path = file path, decoded name literal = published URL name; non-trivial = items checked',
@@ -237,7 +237,7 @@ PLANS = {
         module='RucteProps.C09',
         extra_modules=['RucteProps.C09Hist'],
         theorems=['Ructe.C09.btree_insert_sorted', 'Ructe.C09.btree_keys', 'Ructe.C09.btree_perm', 'Ructe.C09.get_exact', 'Ructe.C09.get_sound', 'Ructe.C09.get_complete', 'Ructe.C09.staticsLine_lists', 'Ructe.C09.statics_complete', 'Ructe.C09.statics_sorted_nodup', 'Ructe.C09.statics_order_independent', 'Ructe.C09.get_finds_exactly_added'],
-        runs=[dict(suite='script', mix='statics', n=dict(quick=200, thorough=4000), projection='script+files+names', tags=['C09'], statics_oracle=True),
+        runs=[dict(suite='script', mix='statics', n=dict(quick=200, thorough=1500), projection='script+files+names', tags=['C09'], statics_oracle=True),
               dict(suite='script', mix='statics', n=dict(quick=40, thorough=400), projection='script+names', tags=['C09'], args=['--keep'], statics_e2e=dict(quick=24, thorough=200))],
         correspondence='the STATICS line and names of statics.rs vs the model',
         rule='as C07 with name sets straddling - . _ digits upper/lower case and common prefixes, shuffled insertion orders (twins); oracle: STATICS lists each published name once in ascending byte order; non-trivial = items checked',
@@ -250,7 +250,7 @@ PLANS = {
         module='RucteProps.C16',
         extra_modules=['RucteProps.C09Hist'],
         theorems=['Ructe.C16.mangle_ascii', 'Ructe.C16.mangle_is_ident', 'Ructe.C16.mangle_not_keyword', 'Ructe.C16.getNames_maps', 'Ructe.C16.getNames_keeps', 'Ructe.C09.getNames_maps_all'],
-        runs=[dict(suite='script', mix='statics', n=dict(quick=200, thorough=4000), projection='script+names', tags=['C16'], statics_oracle=True),
+        runs=[dict(suite='script', mix='statics', n=dict(quick=200, thorough=1500), projection='script+names', tags=['C16'], statics_oracle=True),
               dict(suite='script', mix='statics', n=dict(quick=40, thorough=400), projection='script+names', tags=['C16'], args=['--keep'], statics_e2e=dict(quick=24, thorough=200))],
         correspondence='identifiers (keys of get_names(), item names) vs Ructe.mangle',
         rule='as C07; oracle: identifier = every non-alphanumeric char replaced by _, n before a leading digit, legal Rust identifier; non-trivial = items checked',
